@@ -425,7 +425,8 @@ func (vfs *MemFS) Mkdir(name string, perm fs.FileMode) error {
 		return &fs.PathError{Op: op, Path: "", Err: vfs.err.NoSuchDir}
 	}
 
-	parent, _, pi, err := vfs.searchNode(name, slmEval)
+	// A symbolic link as last element of the path is not followed: the name exists.
+	parent, _, pi, err := vfs.searchNode(name, slmLstat)
 	if !vfs.isNotExist(err) || !pi.IsLast() {
 		return &fs.PathError{Op: op, Path: name, Err: err}
 	}
